@@ -16,7 +16,9 @@ RULE = ("(failure points, exhaustive) for each API (compute_dynamics, compute_dy
         "compute_gradient_and_dynamics/state_gradient incl. the chain rule, Tempo, MeanFieldTempo, PtTempo, GibbsTempo, PtTebd, "
         "compute_correlations), each progress type {silent, simple, bar, None=default}, N=4 steps and each step k=0..N a "
         "failure is injected at step k: exception from the Hamiltonian / rate / Lindblad / field-equation / target / "
-        "propagator-derivative / correlation / spectral-density callable, a missing cap tensor, a mis-shaped MPO tensor; plus "
+        "propagator-derivative / correlation / spectral-density callable (the Hamiltonian also raising a BaseException that "
+        "is not an Exception, like KeyboardInterrupt), a missing cap tensor, a mis-shaped MPO tensor; computations of zero "
+        "steps; a chain computation continued by a second compute() (single- and multi-threaded); plus "
         "the exception-free run and runs where the (harness-owned) timer fires in the middle of the computation. "
         "oqupy.util.Timer is replaced by a fake timer (no wall clock). Oracle after the call returned or raised: no armed "
         "timer, no live thread beyond the baseline. (interleavings, exhaustive) a cooperative line-level scheduler "
@@ -43,17 +45,21 @@ class Boom(Exception):
     pass
 
 
+class BoomBase(BaseException):
+    """a failure that is not an Exception (like KeyboardInterrupt): clean-up written as `except Exception` misses it"""
+
+
 ARMED = [False]      # the constructors evaluate user callables at t=1.0 for input checks: guards are armed after construction
 
 
-def _at_step(k, t0=0.0):
+def _at_step(k, t0=0.0, exc=Boom):
     """callable guard: raise when evaluated (by a computation, not by a constructor's input check) at a time inside
     step k or later"""
     thr = t0 + k * DT - 1e-12
 
     def guard(t):
         if ARMED[0] and t > thr:
-            raise Boom(f"injected at t={t}")
+            raise exc(f"injected at t={t}")
     return guard
 
 
@@ -116,9 +122,19 @@ def scenarios():
         sc.append(dict(api="PtTebd-multithread", fault="bad-mpo", k=k))
         sc.append(dict(api="TwoTimeBathCorrelations", fault="hamiltonian", k=k))
         sc.append(dict(api="compute_correlations", fault="hamiltonian", k=k))
+        for a in ("compute_dynamics", "compute_dynamics_with_field", "Tempo", "MeanFieldTempo", "compute_correlations",
+                  "TwoTimeBathCorrelations"):
+            sc.append(dict(api=a, fault="hamiltonian-base", k=k))
     apis = sorted({s["api"] for s in sc})
     for a in apis:
         sc.append(dict(api=a, fault="none", k=N))
+    # computations of zero steps (they may raise; nothing may be left behind) and a chain computation continued once
+    for a in ("compute_dynamics", "compute_dynamics_with_field", "Tempo", "MeanFieldTempo", "PtTempo", "PtTebd", "PtTebd-multithread"):
+        sc.append(dict(api=a, fault="zero-steps", k=0))
+    for f in ("none", "bad-mpo"):
+        for k in (1, 3):
+            sc.append(dict(api="PtTebd-twice", fault=f, k=k))
+            sc.append(dict(api="PtTebd-multithread-twice", fault=f, k=k))
     return sc
 
 
@@ -139,7 +155,8 @@ def _run_api(case):
     sx, sz, sm, sp = (operators.sigma(x) for x in ("x", "z", "-", "+"))
     api, fault, k, prog = case["api"], case["fault"], case["k"], case["progress"]
     rho0 = operators.spin_dm("up")
-    gH = _at_step(k) if fault == "hamiltonian" else (lambda t: None)
+    gH = _at_step(k, exc=BoomBase if fault == "hamiltonian-base" else Boom) if fault in ("hamiltonian", "hamiltonian-base") \
+        else (lambda t: None)
     gG = _at_step(k) if fault == "gamma" else (lambda t: None)
     gL = _at_step(k) if fault == "lindblad" else (lambda t: None)
     gF = _at_step(k) if fault == "field_eom" else (lambda t: None)
@@ -165,9 +182,13 @@ def _run_api(case):
     bath = oqupy.Bath(0.5 * sz, oqupy.PowerLawSD(0.1, 1.0, 3.0, temperature=0.3))
     par = oqupy.TempoParameters(dt=DT, epsrel=1e-6, dkmax=2, subdiv_limit=None)
     end = (N + 0.5) * DT
+    zero = fault == "zero-steps"
+    if zero:
+        end = 0.3 * DT              # less than one step
     ptk = "missing-cap" if fault == "missing-cap" else ("bad-mpo" if fault == "bad-mpo" else "ok")
     if api == "compute_dynamics":
-        return oqupy.compute_dynamics(tsys(), rho0, process_tensor=_pt(ptk, k), subdiv_limit=None, progress_type=prog)
+        return oqupy.compute_dynamics(tsys(), rho0, process_tensor=_pt(ptk, k), subdiv_limit=None, progress_type=prog,
+                                      **(dict(num_steps=0) if zero else {}))
     if api == "compute_correlations":
         return oqupy.compute_correlations(tsys(), _pt("ok", k), sx, sz, 1, slice(None), initial_state=rho0, progress_type=prog)
     if api in ("compute_dynamics_with_field", "MeanFieldTempo"):
@@ -185,7 +206,7 @@ def _run_api(case):
         if api == "MeanFieldTempo":
             return oqupy.MeanFieldTempo(mfs, [bath], par, [rho0], 0.3 + 0.1j).compute(end, progress_type=prog)
         return oqupy.compute_dynamics_with_field(mfs, 0.3 + 0.1j, [_pt(ptk, k)], initial_state_list=[rho0],
-                                                 subdiv_limit=None, progress_type=prog)
+                                                 subdiv_limit=None, progress_type=prog, **(dict(num_steps=0) if zero else {}))
     if api == "state_gradient":
         marker = 7.0
         params = np.linspace(0.2, 1.0, 2 * N).reshape(2 * N, 1)
@@ -238,14 +259,17 @@ def _run_api(case):
         pt2 = oqupy.pt_tempo_compute(bath, 0.0, end, oqupy.TempoParameters(dt=DT, epsrel=1e-6, dkmax=2), progress_type="silent")
         bd = oqupy.TwoTimeBathCorrelations(tsys(), bath, pt2, initial_state=rho0)
         return bd.occupation(1.3, 1.0, progress_type=prog)
-    if api in ("PtTebd", "PtTebd-multithread"):
+    if api.startswith("PtTebd"):
         chain = oqupy.SystemChain([2, 2])
         chain.add_site_hamiltonian(0, 0.5 * sx)
         chain.add_nn_hamiltonian(0, 0.3 * sz, sz)
         teb = oqupy.PtTebd(oqupy.AugmentedMPS([rho0, rho0]), chain, [_pt(ptk, k), None],
                            oqupy.PtTebdParameters(dt=DT, epsrel=1e-8, order=2), dynamics_sites=[0],
-                           backend_config={"parallel": "multithread"} if api.endswith("multithread") else None)
-        return teb.compute(N, progress_type=prog)
+                           backend_config={"parallel": "multithread"} if "multithread" in api else None)
+        if api.endswith("-twice"):
+            teb.compute(k, progress_type=prog)      # continued by a second call (a defective tensor sits at step k)
+            return teb.compute(N, progress_type=prog)
+        return teb.compute(0 if zero else N, progress_type=prog)
     raise HarnessError("unknown api " + api)
 
 
